@@ -1163,6 +1163,30 @@ func ruleStaleBuf(c *Ctx, rule string, targets [][2]string) {
 			}
 		}
 		if call == nil {
+			// AppendColumns inlined: the column is appended to the receiver's Seq directly
+			for _, b := range fn.Blocks {
+				for _, ins := range b.Instrs {
+					cl, ok := ins.(*ssa.Call)
+					if !ok || builtinCall(cl, "append") == nil || len(cl.Call.Args) != 2 {
+						continue
+					}
+					ld, ok := cl.Call.Args[0].(*ssa.UnOp)
+					if !ok {
+						continue
+					}
+					if fa, ok := ld.X.(*ssa.FieldAddr); ok && fieldName(fa) == "Seq" && len(variadicValues(cl.Call.Args[1])) == 1 {
+						inLoop := false
+						for _, l := range loops {
+							inLoop = inLoop || l.body[b]
+						}
+						if inLoop {
+							call = cl
+						}
+					}
+				}
+			}
+		}
+		if call == nil {
 			c.und(rule, key, fn.Pos(), "no AppendColumns call")
 			continue
 		}
@@ -1171,6 +1195,10 @@ func ruleStaleBuf(c *Ctx, rule string, targets [][2]string) {
 		if len(vals) != 1 {
 			c.und(rule, key, call.Pos(), "AppendColumns is not called with one scratch column")
 			continue
+		}
+		// a copy of the scratch column (append([]T(nil), b...)) stands for the scratch column
+		if cp := builtinCall(vals[0], "append"); cp != nil && len(cp.Call.Args) == 2 && isNilConst(cp.Call.Args[0]) {
+			vals[0] = cp.Call.Args[1]
 		}
 		// the web of values that are the scratch buffer
 		S := map[ssa.Value]bool{vals[0]: true}
@@ -1700,6 +1728,11 @@ func ruleDemandedBits(c *Ctx, rule string) {
 	want := uint64(1)<<uint(2*maxK) - 1
 	for _, fn := range srcFuncs(sp) {
 		if fn.Parent() != nil {
+			continue
+		}
+		// the functions that describe a k-mer to a caller; a private step function that shifts a letter into
+		// an accumulator (and lets the oldest letter fall off the top) is not one
+		if fn.Object() == nil || !fn.Object().Exported() {
 			continue
 		}
 		for _, prm := range fn.Params {
